@@ -5,6 +5,7 @@ import (
 	"context"
 	"errors"
 	"fmt"
+	"os"
 	"time"
 
 	logging "github.com/ipfs/go-log/v2"
@@ -98,12 +99,19 @@ func zzProxied(back *zzBackDA) (da.DA, func()) {
 		}
 		return api, func() {}
 	}
-	// (a fresh port per replayed case: a stopped server may keep its port for a moment)
-	zzPort++
-	port := fmt.Sprint(36000 + zzPort%2000)
-	srv := proxy.NewServer(logger, "127.0.0.1", port, back)
-	if err := srv.Start(context.Background()); err != nil {
-		panic(err)
+	// (a fresh port per replayed case: a stopped server may keep its port for a moment;
+	// ports that are taken are skipped)
+	var srv *proxy.Server
+	var port string
+	for try := 0; ; try++ {
+		zzPort++
+		port = fmt.Sprint(36000 + (zzPort*7+os.Getpid())%20000)
+		srv = proxy.NewServer(logger, "127.0.0.1", port, back)
+		if err := srv.Start(context.Background()); err == nil {
+			break
+		} else if try > 50 {
+			panic(err)
+		}
 	}
 	cl, err := proxy.NewClient(context.Background(), logger, "http://127.0.0.1:"+port, "", "6e73")
 	if err != nil {
